@@ -6,20 +6,20 @@ TB = "trusted base: CPython 3.12 executing the real functions, z3 5.1 / cvc5 1.0
 CHECKS = {
  "C01": ("proof", "per-opcode contracts on the real iter_decode/fusion/decode, the three architecture hooks and the emulator fetch path (fresh and after a decode history on the same Emulator) over fully symbolic byte strings of every length 0..8 (Python; C01 has no Rust part)", "decode history independence via an operand-template frame obligation; " + TB, "5 C01"),
  "C02": ("proof", "encode(decode(b)) == consumed bytes for every opcode x prefix over fully symbolic operand bytes (all don't-care bits), re-decode agreement and the round-trip guard never demoting an accepted instruction", TB, "5 C02"),
- "C03": ("proof", "per (prefix, opcode): the memory image and pointer registers after executing the lifted IL equal the image obtained by applying the documented semantics to the locations denoted by the rendered text, and every byte read is a denoted location; all operand bytes, BP/PX/PY, registers and memory symbolic. Counted instructions for every I >= 1 by an IL-level loop rule (init / one havoced body execution under a linear invariant / exit); whole counted instructions at concrete I as bounded companion", "specification = spec/isa.py (README transcription); README-silent corners excluded by listed definedness conditions; " + TB, "5 C03"),
- "C04": ("proof", "per opcode: every architectural register, both flags, the whole memory image and the halted state after Emulator.execute_instruction equal the README semantics for all operand values and all surrounding state (frame included); counted instructions for every I >= 1 by the IL-level loop rule (element step, carry chain, zero accumulator, cursors, exit state), concrete I in {1,2,3[,4]} as bounded companion; I = 0 and prefixed WAIT not covered by the induction", "specification = spec/isa.py; listed definedness conditions and unconstrained outputs; " + TB, "5 C04"),
+ "C03": ("proof", "per (prefix, opcode): the memory image and pointer registers after executing the lifted IL equal the image obtained by applying the documented semantics to the locations denoted by the rendered text, and every byte read is a denoted location; all operand bytes, BP/PX/PY, registers and memory symbolic. Counted instructions for every I >= 1 by an IL-level loop rule (init / one havoced body execution under a linear invariant / exit); whole counted instructions at concrete I as bounded companion; internal block cursors count modulo 256 (runs past (FF) decided)", "specification = spec/isa.py (README transcription); README-silent corners excluded by listed definedness conditions; " + TB, "5 C03"),
+ "C04": ("proof", "per opcode: every architectural register, both flags, the whole memory image and the halted state after Emulator.execute_instruction equal the README semantics for all operand values and all surrounding state (frame included); counted instructions for every I >= 1 by the IL-level loop rule (element step, carry chain, zero accumulator, cursors, exit state), concrete I in {1,2,3[,4]} as bounded companion; I = 0 and prefixed WAIT not covered by the induction; internal block cursors count modulo 256 (runs past (FF) and counts up to 0xFFFF decided)", "specification = spec/isa.py; listed definedness conditions and unconstrained outputs; " + TB, "5 C04"),
  "C05": ("proof", "branch records produced by the real analyze() vs the PC reached by the real IL evaluation, at a symbolic 20-bit address, all operands/flags/stack symbolic, control-flow opcodes also behind PRE bytes, accepted instructions without documented semantics included; CALL/RET, CALLF/RETF, IR/RETI inverse laws as z3 lemmas over the instruction contracts", "near CALL/RET law needs caller and RET on the same 64 KiB page (stated and shown necessary); " + TB, "5 C05"),
- "C07": ("proof", "2-safety contract on Emulator.execute_instruction per opcode: fresh emulator vs emulator with an execution history, TEMP0-13 arbitrary and different, same architectural inputs => same outputs (histories incl. calls on another page and a HALT that left the power-state flag set); module globals unchanged (Python half); Rust core only by bounded two-run and step-split stand-ins", "hidden state other than TEMPs is covered through the listed concrete history instructions; Rust half not proved: bounded two-run stand-in on the compiled crate (never counted), statics/thread-locals not decided; " + TB, "5 C07"),
+ "C07": ("proof", "2-safety contract on Emulator.execute_instruction per opcode: fresh emulator vs emulator with an execution history, TEMP0-13 arbitrary and different, same architectural inputs => same outputs (histories incl. calls on another page and a HALT that left the power-state flag set); module globals unchanged (Python half); Rust core only by bounded two-run and step-split stand-ins; histories include a tracer attached to the memory (tracing state); the snapshot stepper also with its returned image dict edited in place and handed back", "hidden state other than TEMPs is covered through the listed concrete history instructions; Rust half not proved: bounded two-run stand-in on the compiled crate (never counted), statics/thread-locals not decided; " + TB, "5 C07"),
  "C08": ("proof", "contracts on Registers.get/set (+by-name, flag API) for every register name, arbitrary prior file and arbitrary 64-bit written value, the algebraic law as a lemma over the contract, snapshot round trip and register blob layout (Python half); Rust LlamaState::set_reg/get_reg only by a bounded stand-in on the compiled crate", "Rust half not proved: bounded stand-in (never counted); snapshot.rs constants compared under C17; " + TB, "5 C08"),
  "C09": ("exploration", "bounded contract check of Assembler.assemble over the structural enumeration of accepted encodings (opcode x all 15 prefixes x selector/mode bytes, operand values from a palette incl. zero displacements, named internal registers): assemble(text) succeeds, same text, same lifted IL, second round fixpoint; plus a listing round trip through ONE Assembler (no state from line to line). On the unchanged tree several whole classes fail; each root cause is one known finding and anything outside them is reported", "strings and the lark parser cannot be carried symbolically; operand values are sampled, structure is complete; " + TB, "5 C09 / 10.5"),
  "C10": ("exploration", "bounded contract check of Assembler.assemble on generated programs against an independent layout calculator (bytes at addresses, symbol table, determinism, statelessness); the three lemmas O-size (pass-one size == pass-two bytes for every symbol value), O-value (the emitted bytes decode to an operand equal to the symbol, every value) and O-near (page rule) are proved by SYMX and reported under proved_lemmas", "strings and the lark parser cannot be carried symbolically: the contract on assemble() is bounded (generated programs, seeded); " + TB, "5 C10"),
  "C11": ("proof", "memory laws (read-back, read-only windows, frame/no-alias, alias agreement, little-endian composition) on the real PCE500Memory/MemoryBus for symbolic 32-bit addresses under 12 configurations incl. overlays at symbolic addresses (Python half); Rust MemoryImage only by a bounded law check on the compiled crate", "Rust half not proved: bounded stand-in (never counted); RuntimeBus not decided; device windows excluded; " + TB, "5 C11"),
- "C12": ("proof", "only the contract-sized clauses: delivery gate (both directions), 5-byte frame, master enable cleared, nothing else written, masked request kept, HALT wake-up, RETI step keeps a pending request, on one real PCE500Emulator.step over symbolic IMR/ISR/pending/F/S; IR/RETI inverse as a lemma over the instruction contracts", "the schedule/liveness clauses (prompt delivery over several steps, HALT/OFF timing, all interleavings) are NOT decided; the Rust runtime only by bounded law checks on the compiled crate (one CoreRuntime::step over all IMR/ISR values; scenarios with timer expiries inside a handler) (never counted); " + TB, "5 C12"),
+ "C12": ("proof", "only the contract-sized clauses: delivery gate (both directions), 5-byte frame, master enable cleared, nothing else written, masked request kept, HALT wake-up, RETI step keeps a pending request, on one real PCE500Emulator.step over symbolic IMR/ISR/pending/F/S; IR/RETI inverse as a lemma over the instruction contracts; the OFF clause (a powered-off CPU stops both timers) decided on the real OFF instruction followed by one real step (Python model violates it: listed finding)", "the schedule/liveness clauses (prompt delivery over several steps, HALT/OFF timing, all interleavings) are NOT decided; the Rust runtime only by bounded law checks on the compiled crate (one CoreRuntime::step over all IMR/ISR values; scenarios with timer expiries inside a handler) (never counted); " + TB, "5 C12"),
  "C13": ("proof", "contract of TimerScheduler.advance discharged with the loop rule over unbounded integers, cadence lemma over the contract, reset/setters, snapshot save/load round trip of the scheduler state, ISR mapping of _tick_timers; WAIT loop bounded (Python half); Rust TimerContext::tick_timers only by a bounded stand-in on the compiled crate", "Rust half not proved: bounded stand-in (never counted); _simulate_wait bounded (n <= 4/6 cycles); " + TB, "5 C13"),
- "C14": ("proof", "per-key debounce/repeat automaton contract for all states/thresholds, key operations establish the invariant, FIFO against its sequence view for all head/tail pairs, scan_tick, KEYI gating; row computation bounded in the number of non-idle keys (Python half); Rust KeyboardMatrix only by a bounded law check on the compiled crate", "Rust half not proved: bounded stand-in (never counted); " + TB, "5 C14"),
+ "C14": ("proof", "per-key debounce/repeat automaton contract for all states/thresholds, key operations establish the invariant, FIFO against its sequence view for all head/tail pairs, scan_tick, KEYI gating; row computation bounded in the number of non-idle keys (Python half); Rust KeyboardMatrix only by a bounded law check on the compiled crate; scan_tick bursts of 0..13 events in one tick (queue keeps the newest)", "Rust half not proved: bounded stand-in (never counted); " + TB, "5 C14"),
  "C15": ("proof", "HD61202 protocol contracts per operation on symbolic chip state/VRAM, chip-select routing for all 16 decodings, get_snapshot() agreement after every access, and the pixel map (7680 cells each proved to be one inverted VRAM bit, pairwise distinct) (Python half); Rust LcdController only by a bounded stand-in on the compiled crate", "Rust half not proved: bounded stand-in (never counted); " + TB, "5 C15"),
  "C16": ("proof", "Python half only: restore-point contract of the real PCE500Emulator.save_snapshot/load_snapshot pair on two real emulators with the state components symbolic: every register incl. scratch registers and call bookkeeping, power state, counters, interrupt latches, timer scheduler, keyboard matrix (one arbitrary key, strobe registers, queue), both LCD chips incl. every VRAM byte, and the memory image (external image, ROM / RAM-overlay / card payloads as z3 arrays, every content) are restored exactly; metadata fields vs. the Rust loader's structs as ground obligations; 'the future is unchanged' follows because step() is a deterministic function of the object graph -- that nothing outside the stated view differs is checked by a bounded deep-diff + lockstep companion on concrete scenarios (reported under bounded_parts, not counted as proved)", TB + "; json/zipfile contract stubs; the Rust runtime's save/load is NOT decided", "10.7"),
- "C17": ("proof", "one ground equality per duplicated table entry / constant across Python modules and Rust source text (tokenised), decided by evaluation; complete over the finite item set", "Rust side is read as source text, not compiled", "5 C17"),
+ "C17": ("proof", "one ground equality per duplicated table entry / constant across Python modules and Rust source text (tokenised), decided by evaluation; complete over the finite item set; architecture-level constants (max_instr_length vs the longest encoding, address_size)", "Rust side is read as source text, not compiled", "5 C17"),
 }
 NA = {
  "C06": "statement about sc62015/core/src/llama/eval.rs (Rust); no deductive verifier for Rust is installed and running both cores side by side is differential testing, a different family",
